@@ -24,3 +24,37 @@ Proof.
   exists c. rewrite firstn_app, firstn_all, Nat.sub_diag, skipn_app, skipn_all, Nat.sub_diag. simpl.
   rewrite app_nil_r. reflexivity.
 Qed.
+
+(* --- what a clone / copy step does, exactly ------------------------------------------------------------------------------ *)
+From PG Require Import Proofs.SymCoreWF Proofs.SymCoreClone Proofs.SymCoreWFOps.
+
+Theorem clone_step : forall q st o m tid tk pa pt fl its,
+  o_op o = Clone m -> get_at st (o_pos o) = Some (Node tid tk pa pt fl its) ->
+  let r := clone_at (q_copy_drops_missing q) (N.eqb m 1 || N.eqb m 3) None [] (Node tid tk pa pt fl its) (next_id st, []) in
+  roots (fst (step q st o)) = roots st ++ [Live (fst r)] /\
+  next_id (fst (step q st o)) = fst (snd r) /\
+  snd (step q st o) = Ok (RPos (length (roots st), [])).
+Proof.
+  intros q st o m tid tk pa pt fl its E G. cbv zeta.
+  unfold step. rewrite G, E. simpl.
+  rewrite (clone_at_ignores_header _ _ _ _ tid tk None [] fl its tid pa pt).
+  destruct (clone_at _ _ None [] (Node tid tk pa pt fl its) (next_id st, [])) as [c cs] eqn:C. simpl.
+  rewrite firstn_app, firstn_all, Nat.sub_diag, skipn_app, skipn_all, Nat.sub_diag. simpl.
+  rewrite app_nil_r. auto.
+Qed.
+(* copy.copy is clone(), copy.deepcopy is clone(deep=True): the same step *)
+Theorem copy_is_clone : forall q st sc ps,
+  step q st (mkSop sc ps (Clone 2)) = step q st (mkSop sc ps (Clone 0)) /\
+  step q st (mkSop sc ps (Clone 3)) = step q st (mkSop sc ps (Clone 1)).
+Proof. intros; split; reflexivity. Qed.
+(* Dict.copy() is a shallow clone as well *)
+Theorem dict_copy_is_clone : forall q st sc ps tid pa pt fl its,
+  get_at st ps = Some (Node tid KDict pa pt fl its) ->
+  step q st (mkSop sc ps DCopy) = step q st (mkSop sc ps (Clone 0)).
+Proof. intros. unfold step. simpl. rewrite H. reflexivity. Qed.
+
+(* the open finding: with the quirk flag on, the copy of a list that holds MISSING_VALUE is a different value *)
+Definition refute_list : node := Node 5%N KList None [] (mkFlags false true false 0) [(KI 0, Leaf (LInt 1)); (KI 1, Leaf LMissing)].
+Lemma clone_equal_refuted :
+  erase (fst (clone_at true false None [] refute_list (9%N, []))) <> erase refute_list.
+Proof. Transparent clone_at. vm_compute. Opaque clone_at. discriminate. Qed.
